@@ -375,6 +375,14 @@ Proof.
   - cbn [delete_payload fst snd]. auto.
 Qed.
 
+Example writes_ex :
+  let s := [mkrow 0 1 2 0 104 0 false; mkrow 1 1 2 1 138 7 true] in
+  snd (insert_or_ignore s (mkrow 1 9 9 9 1 1 false)) = false /\ fst (insert_or_ignore s (mkrow 1 9 9 9 1 1 false)) = s /\
+  snd (insert_or_ignore s (mkrow 2 1 0 0 104 0 false)) = true /\
+  map r_id (fst (delete s 0)) = [1] /\ snd (delete s 5) = false /\
+  map r_body (fst (delete_payload s 1)) = [false; false] /\ snd (delete_payload s 1) = true.
+Proof. vm_compute. repeat split. Qed.
+
 (** Keys stay unique under every command. *)
 Definition ids_unique (s : store) : Prop := NoDup (map r_id s).
 
